@@ -4,6 +4,7 @@
    on the concrete crash states / final mbox files the harness reports. -/
 import Drv.Util
 import Nq.LocalDeliver
+import Nq.MaildirSys
 
 open Nq Nq.LocalDeliver Drv
 
@@ -70,6 +71,13 @@ structure Case where
   sys : Option Mb.Sys := none
   nev : Nat := 0
   bad : Bool := false
+  -- several deliveries into one maildir (kind mm)
+  msys : Option MdSys.Sys := none
+  pids : Array Nat := #[]
+  contents : Array Bytes := #[]
+  sig : Array Bool := #[]              -- a signal hit the child of delivery j
+  inNew : List String := []            -- new/ names linked successfully by the implementation and not yet taken by the reader
+  relinked : Bool := false
 
 structure D where
   st : Stats := {}
@@ -160,7 +168,11 @@ def mdOracle (c : Case) (k : Nat) (toks : List String) : Option String :=
     let own := news.filter (fun s => !preNew.contains s)
     let want := s!"{c.content.length}:{hash16 c.content}"
     let okNames := [0, 1, 2].map (fun j => s!"{baseName c j}:{want}")
+    let linked := kvOf toks "linked"
     if own.length > 1 then some "more than one new file"
+    -- `C12_maildir_crash_every_index`, on the implementation's own results: the message is in new/ iff a link() had returned 0
+    else if linked == "1" && own.isEmpty then some "link() had succeeded but the message is not in new/"
+    else if linked == "0" && !own.isEmpty then some "a message is in new/ although no link() has succeeded"
     else if !(own.all okNames.contains) then some s!"new/ holds an incomplete, wrong or misnamed file: {own}"
     else
       let final := k == c.ncalls + 1
@@ -168,6 +180,133 @@ def mdOracle (c : Case) (k : Nat) (toks : List String) : Option String :=
       if final && exit == 0 && own.isEmpty then some "success reported but no complete message in new/"
       else if final && exit != 0 && !own.isEmpty && !c.signalled then some "failure reported but the message is in new/"
       else none
+
+/-! ### several maildir deliveries into one maildir (kind mm): replay through `MdSys.step` -/
+
+def mmCfg (c : Case) : MdSys.Cfg := { host := c.hn, pid := fun i => c.pids.getD i 0, content := fun i => c.contents.getD i [] }
+
+def strOf (b : Bytes) : String := String.ofList (b.map (fun x => Char.ofNat x.toNat))
+
+def mmFeed (d : D) (ev : MdSys.Ev) (what : String) : IO D := do
+  match d.c.msys with
+  | none => return d
+  | some y =>
+    match MdSys.step (mmCfg d.c) y ev with
+    | some y' => return { d with c := { d.c with msys := some y', nev := d.c.nev + 1 }, st := d.st.bump ("mm_" ++ what) }
+    | none =>
+      let where_ := match ev with
+        | .proc i _ => s!"delivery={i} pc={repr (y.st i).pc} name={strOf (MdSys.nameOf (mmCfg d.c) y i)} clock={y.clock}"
+        | _ => ""
+      let d ← disagree d s!"event#{d.c.nev + 1}={what} rejected by MdSys.step {where_}"
+      return { d with c := { d.c with msys := none } }
+
+def procNum (p : String) : Option Nat := if p.startsWith "P" then (p.drop 1).toString.toNat? else none
+
+def mmLine (d : D) (toks : List String) (raw : String) : IO D := do
+  let c := d.c
+  match toks with
+  | ["T", "TICK", n] => mmFeed d (.tick n.toNat!) "tick"
+  | ["T", "MUA", nm] => mmFeed { d with c := { c with inNew := c.inNew.filter (· != nm) } } (.mua (bytesOf nm)) "reader_takes_message"
+  | "T" :: p :: rest =>
+    match procNum p with
+    | none => disagree d s!"unexpected process {p}"
+    | some k =>
+      let j := k / 2
+      if j ≥ c.ds.size then disagree d s!"unexpected process {p}" else
+      if rest == ["clockjump", "100000"] then mmFeed d (.tick 100000) "tick" else
+      if k % 2 == 0 then
+        match rest with
+        | ["fork", "->", _, _] => mmFeed d (.proc j .fork) "fork"
+        | ["exit", code] => mmFeed d (.proc j (.parentExit code.toNat!)) s!"parentExit{code}"
+        | _ => return d
+      else
+        let nm := match c.msys with | some y => strOf (MdSys.nameOf (mmCfg c) y j) | none => "?"
+        let fd := c.ds[j]!.fd
+        let ev := fun (e : Md.Ev) (w : String) => mmFeed d (.proc j e) w
+        match rest with
+        | ["alarm", n] => ev (.alarm n.toNat!) "alarm"
+        | ["sleep", n] => do
+          let d ← ev (.sleep n.toNat!) "sleep"
+          mmFeed d (.tick n.toNat!) "tick"
+        | "KILLED" :: _ => mmFeed { d with c := { c with sig := c.sig.set! j true } } (.proc j .childKilled) "childKilled"
+        | ["signal", "14"] => mmFeed { d with c := { c with sig := c.sig.set! j true } } (.proc j .sigAlarm) "sigAlarm"
+        | ["exit", code] => ev (.childExit code.toNat!) s!"childExit{code}"
+        | _ :: "open_excl" :: path :: "->" :: r :: more =>
+          if path != s!"{c.dir}/tmp/{nm}" then disagree d s!"open_excl of unexpected name {path} (expected tmp/{nm})" else
+          if r != "-1" then mmFeed { d with c := setFd c j r } (.proc j (.openExcl true false)) "openExcl"
+          else ev (.openExcl false (errOf more == "e17")) (if errOf more == "e17" then "openExclEEXIST" else "openExcl!")
+        | _ :: "read" :: "0" :: "->" :: r :: more =>
+          if r == "-1" then ev (.readErr (errOf more == "e4")) "read!" else ev (.read r.toNat!) "read"
+        | _ :: "write" :: wfd :: more =>
+          if wfd != fd then disagree d s!"write to unexpected descriptor {wfd}" else
+          if more.contains "-1" then ev (.writeErr (errOf more == "e4")) "write!"
+          else match unhex (kvOf more "data") with
+            | some bs => ev (.write bs) "write"
+            | none => disagree d "unparsed write"
+        | _ :: "fsync" :: ffd :: more =>
+          if ffd != fd then disagree d s!"fsync of unexpected descriptor {ffd}" else ev (.fsync (!more.contains "-1")) "fsync"
+        | ["close", cfd] => if cfd == fd then ev (.close true) "close" else return d
+        | _ :: "close" :: cfd :: "->" :: "-1" :: _ => if cfd == fd then ev (.close false) "close!" else return d
+        | _ :: "link" :: a :: b :: "->" :: r :: more =>
+          if a != s!"{c.dir}/tmp/{nm}" || b != s!"{c.dir}/new/{nm}" then disagree d s!"link of unexpected names {a} {b}" else
+          if r != "-1" then
+            -- the implementation's own result: the same new/ name linked again while it is still there?
+            let again := c.inNew.contains nm
+            let d := { d with c := { c with inNew := nm :: c.inNew, relinked := c.relinked || again } }
+            mmFeed d (.proc j (.link true)) "link"
+          else ev (.link false) (if errOf more == "e17" then "linkEEXIST" else "link!")
+        | _ :: "unlink" :: a :: "->" :: r :: _ =>
+          if a != s!"{c.dir}/tmp/{nm}" then disagree d s!"unlink of unexpected name {a}" else ev (.unlinkTmp (r != "-1")) "unlinkTmp"
+        | _ => disagree d s!"unparsed_call={raw.trimAscii.toString.take 140}"
+  | _ => return d
+where
+  setFd (c : Case) (j : Nat) (r : String) : Case := { c with ds := c.ds.set! j { c.ds[j]! with fd := r } }
+
+/-- "time.pid.host" → (pid, host) -/
+def splitName (nm : String) : Option (Nat × Nat × String) :=
+  match nm.splitOn "." with
+  | t :: p :: rest => match t.toNat?, p.toNat? with
+    | some tn, some pn => some (tn, pn, ".".intercalate rest)
+    | _, _ => none
+  | _ => none
+
+/-- the property on the final directories of a multi-delivery case (implementation's listing only) -/
+def mmOracle (c : Case) (toks : List String) : Option String :=
+  let listOf := fun (key : String) => let v := kvOf toks key; if v == "-" || v == "" then [] else v.splitOn ","
+  let news := listOf "new"
+  let tmps := listOf "tmp"
+  let curs := listOf "cur"
+  let preNew := (c.pre.filter (·.startsWith "new/")).map (fun s => (s.drop 4).toString)
+  let preTmp := (c.pre.filter (·.startsWith "tmp/")).map (fun s => (s.drop 4).toString)
+  let anySig := c.sig.toList.any id
+  if !(preNew.all news.contains) || (!anySig && !(preTmp.all tmps.contains)) then some "a file that existed before the deliveries was changed or removed"
+  else if c.relinked then some "two deliveries linked the same new/ name while the first message was still there"
+  else
+    let own := news.filter (fun s => !preNew.contains s) ++ curs
+    let host := strOf ((c.hn.take 64).takeWhile (fun b => b != 0))
+    let idx := List.range c.ds.size
+    -- key of a file / of a delivery: pid and "len:hash" of the content
+    let keyOfFile := fun (s : String) => match s.splitOn ":" with
+      | nm :: len :: h :: _ => match splitName nm with
+        | some (_, p, hs) => if hs == host then some (p, s!"{len}:{h}") else none
+        | none => none
+      | _ => none
+    let keyOf := fun (j : Nat) => (c.pids.getD j 0, s!"{(c.contents.getD j []).length}:{hash16 (c.contents.getD j [])}")
+    if own.any (fun s => (keyOfFile s).isNone) then some s!"new/ holds a misnamed file: {own}"
+    else
+      let keys := own.filterMap keyOfFile
+      let bad := idx.find? (fun j =>
+        let k := keyOf j
+        let nOk := (idx.filter (fun i => keyOf i == k && c.ds[i]!.exit == 0)).length
+        let nMay := (idx.filter (fun i => keyOf i == k && (c.ds[i]!.exit == 0 || c.sig.getD i false))).length
+        let nFiles := (keys.filter (· == k)).length
+        nFiles < nOk || nFiles > nMay)
+      match bad with
+      | some j => some s!"delivery {j}: the number of complete messages in new/ (and cur/) does not match the deliveries that reported success (lost, duplicated or overwritten)"
+      | none =>
+        if keys.any (fun k => !(idx.any (fun j => keyOf j == k))) then some s!"new/ holds an incomplete or wrong file: {own}"
+        else if idx.any (fun j => c.ds[j]!.started && c.ds[j]!.exit != 0 && c.ds[j]!.exit != 111) then some "a failed delivery is not reported as a temporary failure (111)"
+        else none
 
 /-! ### mbox -/
 
@@ -309,7 +448,25 @@ def newCase (d : D) (rest : List String) : IO D := do
   let loc := (unhex (kvOf rest "local")).getD []
   let host := (unhex (kvOf rest "host")).getD []
   let time := (kvOf rest "time").toNat!
-  if kind == "md" then
+  if kind == "mm" then
+    let n := (kvOf rest "n").toNat!
+    let pre := kvOf rest "pre"
+    let preL := if pre == "-" then [] else pre.splitOn ","
+    let nameOnly := fun (s : String) => bytesOf ((s.splitOn ":").headD "")
+    let ds := (List.range n).map (fun i => ({ msg := (unhex (kvOf rest s!"msg{i}")).getD [], sender := (unhex (kvOf rest s!"sender{i}")).getD [] } : Deliv))
+    let pids := (List.range n).map (fun i => (kvOf rest s!"pid{i}").toNat!)
+    if (kvOf rest "faults") != "-" then st := st.bump "with_fault"
+    if (List.range n).any (fun i => (kvOf rest s!"at{i}") != "0") then st := st.bump "mm_two_live_children"
+    if (List.range n).any (fun i => i > 0 && (kvOf rest s!"at{i}") == "0" && (pids.take i).contains (pids.getD i 0)) then st := st.bump "mm_restart_reusing_a_pid"
+    let sys : MdSys.Sys := { clock := time,
+                             tmp := (preL.filter (·.startsWith "tmp/")).map (fun s => nameOnly (s.drop 4).toString),
+                             new := (preL.filter (·.startsWith "new/")).map (fun s => nameOnly (s.drop 4).toString) }
+    let c : Case := { kind := kind, hdr := hl, loc := loc, host := host, time := time, faults := (kvOf rest "faults"), dir := kvOf rest "dir",
+                      hn := (unhex (kvOf rest "hn")).getD [], pre := preL, ds := ds.toArray, pids := pids.toArray,
+                      contents := (ds.map (fun dl => maildirContent (Local.rpline dl.sender) (Local.dtline loc host) dl.msg)).toArray,
+                      sig := (ds.map (fun _ => false)).toArray, msys := some sys }
+    return { st := st, c := c }
+  else if kind == "md" then
     let msg := (unhex (kvOf rest "msg")).getD []
     let sender := (unhex (kvOf rest "sender")).getD []
     let pre := kvOf rest "pre"
@@ -361,7 +518,7 @@ def handle (d : D) (line : String) : IO D := do
   | "T" :: _ =>
     if d.c.bad then return d
     if toks.contains "CRASH" then return d
-    if d.c.kind == "md" then mdLine d toks line else mbLine d toks line
+    if d.c.kind == "md" then mdLine d toks line else if d.c.kind == "mm" then mmLine d toks line else mbLine d toks line
   | "EXIT" :: rest =>
     let c := d.c
     if c.kind == "md" then
@@ -394,8 +551,39 @@ def handle (d : D) (line : String) : IO D := do
           | pc => d ← disagree d s!"trace of P{2 * i} ended at pc={repr pc}"
       | none => pure ()
       return d
+  | "X" :: j :: code :: rest =>
+    let c := d.c
+    let j := j.toNat!
+    if j ≥ c.ds.size then return d
+    let started := kvOf rest "started" == "1"
+    let c := { c with ds := c.ds.set! j { c.ds[j]! with exit := code.toInt!.toNat, started := started } }
+    let mut d := { d with c := c, st := d.st.bump "mm_deliveries" }
+    match c.msys with
+    | some y =>
+      if started then
+        match (y.st j).pc with
+        | .done cd => if cd != code.toInt!.toNat then d ← disagree d s!"delivery {j} exit code {code}, model {cd}"
+        | pc => d ← disagree d s!"trace of delivery {j} ended at pc={repr pc}"
+    | none => pure ()
+    return d
+  | "L" :: rest =>
+    let mut d := d
+    let c := d.c
+    let listOf := fun (key : String) => let v := kvOf rest key; if v == "-" || v == "" then [] else (v.splitOn ",").map (fun s => (s.splitOn ":").headD "")
+    match c.msys with
+    | some y =>
+      let srt := fun (l : List String) => l.toArray.qsort (· < ·) |>.toList
+      if srt (y.new.map strOf) != srt (listOf "new") then d ← disagree d s!"new/ differs from the model's: impl={listOf "new"} model={y.new.map strOf}"
+      if srt (y.tmp.map strOf) != srt (listOf "tmp") then d ← disagree d s!"tmp/ differs from the model's: impl={listOf "tmp"} model={y.tmp.map strOf}"
+      let names := y.log.map (MdSys.logName (mmCfg c))
+      if names.eraseDups.length != names.length then d := { d with st := d.st.bump "mm_same_name_linked_twice_after_reader_took_the_first" }
+    | none => pure ()
+    d := { d with st := d.st.bump "mm_final_states" }
+    match mmOracle c rest with
+    | none => return d
+    | some why => oracleFail d why
   | "S" :: k :: mode :: rest =>
-    let st := d.st.bump "crash_states"
+    let st := (d.st.bump "crash_states").bump (if kvOf rest "linked" == "1" then "crash_states_after_link" else "crash_states_before_link")
     match mdOracle d.c k.toNat! rest with
     | none => return { d with st := st }
     | some why => oracleFail { d with st := st } s!"{why} crash_before_call={k} resolution={mode}"
